@@ -453,12 +453,28 @@ Proof.
   intros H. cbn [c_read]. rewrite int_read_enc by (apply int_fits32_int64; exact H). rewrite H. reflexivity.
 Qed.
 
+Lemma time_of_units_ns mult l : int64_ok (l * mult) -> time_of_units mult l = time_of_ns (l * mult).
+Proof.
+  intros Hm. unfold time_of_units, time_of_ns.
+  destruct (mult =? 1000) eqn:E1; [|destruct (mult =? 1000000) eqn:E2].
+  - apply Z.eqb_eq in E1. subst mult. f_equal; lia.
+  - apply Z.eqb_eq in E2. subst mult. f_equal; lia.
+  - rewrite wrap64_id by exact Hm. reflexivity.
+Qed.
+
 Lemma long_read fuel dest mult l rest : int64_ok l -> int64_ok (l * mult) ->
   c_read fuel (CTimeLong mult) dest (int_write l ++ rest) =
   Done (VTime (TV (l * mult / 1000000000) ((l * mult) mod 1000000000) 0)) rest.
 Proof.
   intros Hl Hm. cbn [c_read]. rewrite int_read_enc by exact Hl. rewrite int_fits64_int64 by exact Hl.
-  cbn [obind]. rewrite wrap64_id by exact Hm. reflexivity.
+  cbn [obind]. rewrite (time_of_units_ns mult l Hm). reflexivity.
+Qed.
+
+(* the two timestamp units are read without overflow, for every int64 *)
+Lemma long_read_wide fuel dest mult l rest : int64_ok l ->
+  c_read fuel (CTimeLong mult) dest (int_write l ++ rest) = Done (VTime (time_of_units mult l)) rest.
+Proof.
+  intros Hl. cbn [c_read]. rewrite int_read_enc by exact Hl. rewrite int_fits64_int64 by exact Hl. reflexivity.
 Qed.
 
 (* the instant of a time value, in nanoseconds since the epoch *)
@@ -519,6 +535,35 @@ Proof.
   - cbn [instant_ns]. do 2 f_equal. destruct Hu as [->|[->| ->]]; lia.
   - cbn [instant_ns]. replace ((l * mult / 1000000000 * 1000000000 + (l * mult) mod 1000000000) / mult) with l; [exact Hl|].
     destruct Hu as [->|[->| ->]]; lia.
+Qed.
+
+(* timestamp-millis / timestamp-micros over the whole range of the stored long *)
+Definition ts_unit (mult : Z) : Prop := mult = 1000 \/ mult = 1000000.
+
+Lemma time_of_units_wf mult l : ts_unit mult -> tv_wf (time_of_units mult l) /\ instant_ns (time_of_units mult l) = l * mult.
+Proof.
+  intros [-> | ->]; unfold time_of_units; cbn [Z.eqb Pos.eqb tv_wf instant_ns]; split; lia.
+Qed.
+
+Lemma long_read_write_wide mult l : ts_unit mult -> int64_ok l ->
+  c_write (CTimeLong mult) (VTime (time_of_units mult l)) = Some (int_write l).
+Proof.
+  intros Hu Hl. cbn [c_write]. do 2 f_equal.
+  destruct Hu as [-> | ->]; unfold time_of_units, time_long_value; cbn [Z.eqb Pos.eqb].
+  - replace (l / 1000000 * 1000000 + l mod 1000000 * 1000 / 1000) with l by lia. apply wrap64_id. exact Hl.
+  - replace (l / 1000 * 1000 + l mod 1000 * 1000000 / 1000000) with l by lia. apply wrap64_id. exact Hl.
+Qed.
+
+Lemma long_write_read_wide fuel dest mult t rest : ts_unit mult -> tv_wf t ->
+  int64_ok (instant_ns t / mult) ->
+  exists bs, c_write (CTimeLong mult) (VTime t) = Some bs /\
+    bs = int_write (instant_ns t / mult) /\
+    c_read fuel (CTimeLong mult) dest (bs ++ rest) = Done (VTime (time_of_units mult (instant_ns t / mult))) rest.
+Proof.
+  intros Hu Hn Hr. exists (int_write (instant_ns t / mult)). split; [|split; [reflexivity|]].
+  - cbn [c_write]. rewrite time_long_value_floor; [reflexivity| |exact Hn|exact Hr].
+    unfold unit_ok. destruct Hu; auto.
+  - apply long_read_wide. exact Hr.
 Qed.
 
 (* the codec chosen for a time.Time field by buildTimeCodec, per schema *)
